@@ -683,6 +683,9 @@ func (g *Gen) stmt(depth int) []Stmt {
 		if g.R.Chance(12) {
 			return g.genforFalse(d)
 		}
+		if g.R.Chance(12) {
+			return g.genforCompound(d)
+		}
 		return g.genFor(depth, d)
 	case 8:
 		g.use("do")
@@ -780,7 +783,9 @@ func (g *Gen) stmt(depth int) []Stmt {
 		}
 		return g.nestedBlockClosure(d)
 	case 40:
-		switch g.R.Intn(6) {
+		switch g.R.Intn(7) {
+		case 6:
+			return g.callableHandlers(d)
 		case 4:
 			return g.rawsetChain(d)
 		case 5:
